@@ -12,6 +12,7 @@ from .. import crashsim
 
 LEVEL = "fault_enumeration"
 SHRINK = (40, 150.0)
+ISOLATE = False  # isolation is per configuration (the whole _config_task runs in a forked child)
 KINDS = ("reference", "die", "raise", "staging-off-named", "staging-off-unnamed")
 WHERE = ("boundary", "stage-edge", "interior", "anywhere", "inside-fits-writer")
 
@@ -86,9 +87,9 @@ def _reference_oracle(ref):
         diff = crashsim.describe_diff(ref["snaps"][K], final)
         if diff:
             out.append(("c17.last_equals_final", f"the file after the last stage differs from the final table: {diff}", "final"))
-    stray = [x for x in ref["listing"] if x not in ("out.fits", "side")]
-    if stray:
-        out.append(("c17.stray_file", f"unexpected file(s) next to the output: {stray}", "stray"))
+    # other files next to the output while staging is ON are not the property's business (an
+    # atomic tmp+rename writer, say, is free to use one): counted as a probe by the caller.
+    # With staging OFF any file at all is a violation (see the staging-off cases).
     return out
 
 
@@ -112,6 +113,8 @@ def scn_case(ctx):
     ctx.probes[f"boundaries_{K}"] += 1
     for check, msg, sig in ref["problems"]:
         ctx.violate(check, msg, sig)
+    if [x for x in ref["listing"] if x not in ("out.fits", "side")]:
+        ctx.probes["other_files_next_to_output"] += 1
     kind = KINDS[ch.draw(len(KINDS), "case_kind")]
     ctx.describe["case"] = kind
     if kind == "reference":
@@ -238,7 +241,9 @@ def scn_case(ctx):
         )
     stray = [x for x in fr["listing"] if x not in ("out.fits",)]
     if stray:
-        ctx.violate("c17.stray_file", f"unexpected file(s) {stray} left after a failure at {fired['site']}", "stray")
+        # e.g. the scratch file of a tmp+rename writer killed between write and rename: the
+        # statement is about the output file, which was checked above
+        ctx.probes["other_files_left_after_failure"] += 1
 
 
 FAMILIES = {"case": scn_case}
@@ -256,7 +261,19 @@ def _enumerate_cases(seed, c, K_hint=None):
 
 
 def _config_task(args):
-    """Pool task: one configuration, all of its cases."""
+    """Pool task: one configuration, all of its cases — in a forked child of the warmed-up
+    worker, so that no configuration can leave state behind for the next one."""
+    from .. import core
+
+    try:
+        return core.in_fork(_config_task_body, args)
+    except Exception:
+        import traceback
+
+        return [{"idx": args[1] * 1000, "family": "case", "harness_error": traceback.format_exc()}]
+
+
+def _config_task_body(args):
     from .. import core
 
     seed, c, tier = args
@@ -275,7 +292,7 @@ def _config_task(args):
                 return None
             faulthandler.dump_traceback_later(900, exit=True)
             try:
-                r = core.run_and_shrink(scn, "C17", "case", idx, tier, Chooser(values=cfg_vals + case_vals))
+                r = core.run_and_shrink(scn, "C17", "case", idx, tier, ("values", cfg_vals + case_vals))
             finally:
                 faulthandler.cancel_dump_traceback_later()
             idx += 1
